@@ -74,13 +74,27 @@ func main() {
 				fmt.Fprintln(os.Stderr, err)
 				os.Exit(2)
 			}
+			stalls := 0
 			for _, line := range strings.Split(string(data), "\n") {
 				f := strings.Fields(line)
 				if len(f) < 2 {
 					continue
 				}
 				id, _ := strconv.Atoi(f[1])
-				cw.Put(rs(f[2:], id))
+				if stalls >= 4 {
+					// repeated stalls: the implementation wedges; a few witnesses are enough, the rest of
+					// the shard is not replayed (each stall costs the controller's full time-out)
+					cw.Put(hx.Case{Stream: *stream, ID: id, In: f[2:], Impl: []string{"skipped-after-repeated-stalls"}})
+					continue
+				}
+				c := rs(f[2:], id)
+				for _, t := range c.Impl {
+					if strings.Contains(t, "stall") || t == "stuck" {
+						stalls++
+						break
+					}
+				}
+				cw.Put(c)
 			}
 			streams.CloseWorld()
 			if err := cw.Close(); err != nil {
